@@ -158,6 +158,39 @@ theorem C04_minimisers (bs : List B) (i : Nat) : i ∈ minimisers bs ↔ IsMin b
     have := (List.getElem?_eq_some_iff.mp hb).1
     simpa using this
 
+/-- **WlcSimple maps the random draw onto exactly the minimisers, uniformly**: with `n = rand.Int()` the backend handed
+    out is the `(n mod k)`-th of the `k` candidates (which are exactly the minimisers, `C04_candidates_exact`), so every
+    minimiser is reachable, nothing else is, and each one owns exactly one residue class of `n`. -/
+theorem C04_random_nth (bs : List B) (cs : List Nat) (n : Nat) (h : leastConns bs = some cs) :
+    (wlc .randomTie bs n).1 = cs[n % cs.length]? := by
+  unfold wlc
+  rw [h]
+  split
+  · rename_i heq; simp at heq
+  · rename_i c heq
+    simp only [Option.some.injEq] at heq; subst heq
+    simp [Nat.mod_one]
+  · rename_i cs' _ heq
+    simp only [Option.some.injEq] at heq; subst heq
+    rfl
+
+/-- the candidates are pairwise distinct (so the `k` residue classes belong to `k` different backends) -/
+theorem C04_candidates_nodup (bs : List B) (cs : List Nat) (h : leastConns bs = some cs) : cs.Nodup := by
+  have hen : ((enum bs).map (·.1)).Nodup := by
+    have : (enum bs).map (·.1) = List.range' 0 bs.length := by
+      unfold enum
+      rw [List.map_map]
+      have : ((fun x : Nat × B => x.1) ∘ fun p : B × Nat => (p.2, p.1)) = Prod.snd := rfl
+      rw [this, List.zipIdx_map_snd]
+    rw [this]; exact List.nodup_range'
+  unfold leastConns leastConnsE at h
+  split at h
+  · simp at h
+  · simp only [Option.some.injEq] at h; subst h; simp
+  · simp only [Option.some.injEq] at h; subst h
+    unfold pass2
+    exact List.Nodup.sublist (List.Sublist.map _ List.filter_sublist) hen
+
 /-! Non-vacuity: exact rational ties 2/400 = 3/600 beat 1/100, the unavailable and the weight-0 one. -/
 def ex1 : List B :=
   [⟨100, 100, 1, true⟩, ⟨400, 400, 2, true⟩, ⟨600, 600, 3, true⟩, ⟨300, 300, 0, false⟩, ⟨0, 0, 0, true⟩]
